@@ -10,6 +10,59 @@ EXPLANATION = ('(R13.1) the built-in function registry (name -> function object 
                'Sema); (R05.5) the slice loops clamp the step (shared with C05).')
 NOT_DECIDED = 'the values returned (projection scoping, truthiness, function results); only the listed structural clauses are decided'
 
+OPKIND = {'eq_op': '==', 'ne_op': '!=', 'lt_op': '<', 'lte_op': '<=', 'gt_op': '>', 'gte_op': '>='}
+
+def r13_6(chk, facts):
+    """Comparator classes: operator kind (constructor) vs the C++ operator applied, operand order, and the number guard of the ordering comparators."""
+    chk.rule('R13.6', 'comparators: the class registered as operator_kind K returns `lhs K rhs ? true : false` with the operands in that order; the ordering '
+                      'comparators (< <= > >=) compare only when both operands are numbers and return null otherwise', floor=6)
+    kinds = {}
+    for f in facts.functions:
+        if f.get('fk') == 'CXXConstructor' and not f.get('dep') and f['file'].endswith('jmespath.hpp'):
+            for ini in f.get('inits') or []:
+                for y in A.walk(ini.get('init')):
+                    if y.get('k') == 'DeclRefExpr' and y.get('dk') == 'EnumConstant' and y.get('n') in OPKIND and 'operator_kind' in (y.get('q') or ''):
+                        kinds[f.get('cls')] = y['n']
+    chk.require(len(set(kinds.values())) >= 6, 'R13.6: comparator classes found for %s only' % sorted(set(kinds.values())))
+    seen = set()
+    for f in facts.functions:
+        if f['n'] != 'evaluate' or f.get('cls') not in kinds or f.get('body') is None or f.get('dep'): continue
+        kind = kinds[f['cls']]
+        key = A.strip_targs(f['cls']).split('::')[-1]
+        if key in seen: continue
+        seen.add(key)
+        chk.analysed(f)
+        want = OPKIND[kind]
+        pn = [p['n'] for p in f['params'][:2]]
+        g = C.CFG(f['body'])
+        found = None
+        for nd in g.rpo:
+            if nd.kind != 'return': continue
+            v = A.strip(nd.ast.get('val'), casts=True)
+            if v is None or v.get('k') != 'ConditionalOperator': continue
+            c = G.comparison(v.get('cond'))
+            if not c: continue
+            found = (nd, c, v)
+        site = U.site(f, 'comparison')
+        if found is None:
+            # eq/ne may return through a helper; only the shape `a OP b ? true : false` is decided
+            chk.fail('R13.6', site, f['file'], f['l'], '%s::evaluate has no `lhs %s rhs ? true_value() : false_value()` return' % (key, want), None, f['q']); continue
+        nd, (op, l, r), v = found
+        order = [A.ref_name(l), A.ref_name(r)]
+        tv = [A.callee_name(c2) for c2 in A.calls_in(v.get('then'))]; fv = [A.callee_name(c2) for c2 in A.calls_in(v.get('else'))]
+        problems = []
+        if op != want: problems.append('applies `%s`, registered as %s (`%s`)' % (op, kind, want))
+        if order != pn: problems.append('operands are (%s, %s), parameters are (%s, %s)' % (order[0], order[1], pn[0], pn[1]))
+        if 'true_value' not in tv or 'false_value' not in fv: problems.append('true/false results are swapped or missing')
+        if want in ('<', '<=', '>', '>='):
+            gs = set()
+            for a, lab, e in g.guards(nd):
+                s2 = A.strip(a, casts=True)
+                if s2 is not None and s2.get('k') in A.CALLS and A.callee_name(s2) == 'is_number' and lab is True: gs.add(A.ref_name(s2.get('obj')))
+            if not set(pn) <= gs: problems.append('the comparison is reached without is_number() holding for %s' % ' and '.join(sorted(set(pn) - gs)))
+        if not problems: chk.ok('R13.6', site, {'class': key, 'kind': kind, 'operator': op})
+        else: chk.fail('R13.6', site, f['file'], nd.line, '%s: %s' % (key, '; '.join(problems)), {'kind': kind}, f['q'])
+
 def run(chk, tier, only_rule=None):
     chk.explanation = EXPLANATION
     chk.not_decided = NOT_DECIDED
@@ -196,8 +249,10 @@ def run(chk, tier, only_rule=None):
     chk.require(n4 >= 20, 'R13.4: only %d entry points/evaluate functions found' % n4)
     # ---- shared slice clamp rule
     from . import c05
+    r13_6(chk, facts)
     c05.r05_5(chk, tier)
     from . import c12
     c12.r12_3(chk, tier, units=('jmespath',))
+    c12.r12_5(chk, tier, units=('jmespath',))
     c05.r05_6(chk, tier, units=['jmespath'], floor=70)
     c05.r05_7(chk, tier, units=['jmespath'], floor=90)
